@@ -24,8 +24,10 @@ LEVEL_TEXT = ("Lean 4 theorems over exact integer (= rational, after scaling) ar
               "arange_num_spec_pos/neg (num counts exactly the indices before stop), arange_den (for every chunking and "
               "sign of step the blocks have the declared lengths and concatenate to start+i*step), linspace_den, "
               "eye_den (element (r,c) is 1 iff c-r=k for every row/column chunking, incl. the np.zeros blocks), "
-              "diag_den (1-d, k=0), tri_den, chunks_sum_shape (via C23). Float behaviour (fractional steps, length "
-              "rounding, float linspace) is validated against NumPy, not proved; diagonal/indices/meshgrid/fromfunction/"
+              "diag_den (1-d, k=0), diagonal_den (2-d: the while loop that follows the k-diagonal through the blocks "
+              "terminates, declares np.diagonal's lengths and reads exactly the diagonal positions in order - loop "
+              "invariant, any chunking, any k), tri_den, chunks_sum_shape (via C23). Float behaviour (fractional steps, length "
+              "rounding, float linspace) is validated against NumPy, not proved; n-d diagonal (free axes)/indices/meshgrid/fromfunction/"
               "full/ones/zeros(_like) are validated at API level only.")
 LEVEL_NOTE = ("Trusted: Lean kernel + standard axioms; the harness; NumPy kernels on one block (np.arange/linspace/eye/diag) as "
               "specified in ASSUMPTIONS. Known finding: linspace with an integer dtype can differ from NumPy by one where "
@@ -263,6 +265,23 @@ def case_diag(ctx, inp):
         r = da.diagonal(d, k, ax1, ax2)
     if not _same(ctx, f"{op}({len(shape)}-d, k={k})", r, e, exact=True):
         return
+    if len(shape) == 2 and inp.get("dask", True) and not (op == "diag" and k == 0 and chunks[0] == chunks[1]):
+        # function level: the walk along the k-diagonal through the blocks vs the Lean plan
+        kk, rc, cc = k, list(chunks[0]), list(chunks[1])
+        if op == "diagonal":
+            a1, a2 = (a % 2 for a in inp["axes"])
+            if a1 > a2:
+                kk = -k
+        m = ctx.lean(Sym("diagonal"), rc, cc, kk)
+        tasks = _tasks(r)
+        segs = []
+        if r.chunks[-1] != (0,):
+            for i in range(len(r.chunks[-1])):
+                t = tasks[(r.name, i)]
+                ref = t.args[0].key
+                segs.append([int(ref[1]), int(ref[2]), int(t.args[1]), int(r.chunks[-1][i])])
+        ctx.eq("diagonal: (block row, block column, local k, chunk length) per task", m, [Sym("ok"), segs])
+        ctx.branch("diagonal:plan-diffed" + (":multi" if len(segs) > 1 else ""))
     if op == "diag" and len(shape) == 1 and k == 0 and inp.get("dask", True):
         m = ctx.lean(Sym("diag"), list(chunks[0]), [int(v) for v in x])
         ctx.eq("diag: Lean diagDen vs computed", m, np.asarray(r.compute(scheduler="sync")).tolist())
@@ -444,6 +463,11 @@ def generate(ctx):
             if rng.random() < 0.3:
                 ax = [a - nd for a in ax]
             yield "diag", {"op": "diagonal", "chunks": [rand_comp(rng, s) for s in shape], "k": rng.randint(-5, 5), "axes": ax}
+    # --- 2-d diagonal: the block walk vs the Lean plan -----------------------------------------------------------
+    for _ in range(ctx.n(80, 1000)):
+        n, m = rng.randint(1, 9), rng.randint(1, 9)
+        yield "diag", {"op": "diagonal", "chunks": [rand_comp(rng, n), rand_comp(rng, m)], "k": rng.randint(-n - 1, m + 1),
+                       "axes": rng.choice([[0, 1], [1, 0], [-2, -1]])}
     # --- the rest: API level --------------------------------------------------------------------------------
     for _ in range(ctx.n(250, 3000)):
         op = rng.choice(["tri", "indices", "meshgrid", "fromfunction", "ones", "zeros", "full", "empty",
